@@ -203,9 +203,22 @@ def topo(gates, ins):
     return out
 
 
-def bench_text(ins, outs, gates, rng):
-    lines = [f'INPUT({x})' if rng.random() < 0.5 else f'input({x})' for x in ins]
-    lines += [f'OUTPUT({x})' for x in outs]
+def bench_text(ins, outs, gates, rng, order=None):
+    """order (out): the port names in declaration order -- INPUT and OUTPUT statements may come in any order and may list several names"""
+    decl = [('in', x) for x in ins] + [('out', x) for x in outs]
+    if rng.random() < 0.6:
+        rng.shuffle(decl)
+    lines = []
+    k = 0
+    while k < len(decl):
+        grp = [decl[k]]
+        while k + len(grp) < len(decl) and decl[k + len(grp)][0] == grp[0][0] and rng.random() < 0.3:
+            grp.append(decl[k + len(grp)])
+        kw = ('INPUT' if rng.random() < 0.5 else 'input') if grp[0][0] == 'in' else ('OUTPUT' if rng.random() < 0.7 else 'output')
+        lines.append(f'{kw}({", ".join(x for _, x in grp)})')
+        k += len(grp)
+    if order is not None:
+        order[:] = [x for _, x in decl]
     body = [f'{o} = {kind.upper() if rng.random() < 0.5 else kind}({", ".join(a)})' + (' # c' if rng.random() < 0.2 else '') for o, kind, a in gates]
     rng.shuffle(body)
     return '# bench\n' + '\n'.join(lines + body) + '\n'
@@ -231,11 +244,11 @@ def verilog_text(ins, outs, gates):
 
 
 def run_bench(args):
-    v = check_bench(args['ins'], args['outs'], [tuple(g) for g in args['gates']], args['btext'], args['vtext'])
+    v = check_bench(args['ins'], args['outs'], [tuple(g) for g in args['gates']], args['btext'], args['vtext'], args.get('order'))
     return {'reproduced': bool(v), 'violated': v}
 
 
-def check_bench(ins, outs, gates, btext, vtext):
+def check_bench(ins, outs, gates, btext, vtext, order=None):
     from kyupy import bench, verilog, techlib
     out = []
     try:
@@ -243,8 +256,8 @@ def check_bench(ins, outs, gates, btext, vtext):
     except Exception as e:  # noqa
         return [('bench:parse:exception', repr(e))]
     names = [n.name for n in cb.io_nodes]
-    if names != ins + outs:
-        out.append(('bench:port-order', f'{names} != {ins + outs}'))
+    if names != (order or ins + outs):
+        out.append(('bench:port-order', f'{names} != declaration order {order or ins + outs}'))
         return out
     try:
         cv = verilog.parse(vtext, tlib=techlib.NANGATE)
@@ -302,9 +315,10 @@ def bench_part(tier, seed):
         if g2 is None:
             continue
         gates = g2
-        bt, vt = bench_text(ins, outs, gates, rng), verilog_text(ins, outs, gates)
+        order = []
+        bt, vt = bench_text(ins, outs, gates, rng, order), verilog_text(ins, outs, gates)
         b.case((tuple(ins), tuple(outs), tuple((o, kd, tuple(a)) for o, kd, a in gates)), True, sample={'bench': bt[:300]})
-        for clause, msg in check_bench(ins, outs, gates, bt, vt):
+        for clause, msg in check_bench(ins, outs, gates, bt, vt, order):
             b.violation(f'bounded:C11:{clause}', f'netlist {k}: {msg}', 'bounded.parse_drv:run_bench',
-                        {'ins': ins, 'outs': outs, 'gates': [list(g) for g in gates], 'btext': bt, 'vtext': vt}, function='kyupy.bench.parse')
+                        {'ins': ins, 'outs': outs, 'gates': [list(g) for g in gates], 'btext': bt, 'vtext': vt, 'order': order}, function='kyupy.bench.parse')
     return b
